@@ -200,6 +200,111 @@ pub fn for_net(net: &Net, tier: Tier, idx: u64, st: &mut Stats) {
     }
 }
 
+/// the same clauses through the whole application: response fields `route.path` (edge_id form) and `tree`
+pub fn app_layer(scratch: &crate::world::app::Scratch, net: &Net, st: &mut Stats) {
+    use crate::world::app::AppSpec;
+    let n = net.n;
+    let m = net.m();
+    if m == 0 {
+        return;
+    }
+    for orientation in ["vertex", "edge"] {
+        let mut spec = AppSpec::simple(net.clone());
+        spec.orientation = orientation.into();
+        spec.algorithm = json!({"type": "a*", "weight_factor": 1.0});
+        spec.output_plugins = vec![json!({"type": "traversal", "route": "edge_id", "tree": "json", "geometry_input_file": "$DIR/geometries.txt"})];
+        let dir = scratch.path.join(format!("a{}_{}", net.hash_idx(), orientation));
+        let app = match spec.build(&dir) {
+            Ok(a) => a,
+            Err(e) => {
+                st.violation("harness", "app_build", 0, || e.clone(), || json!({"net": net}));
+                return;
+            }
+        };
+        let mut queries: Vec<(Value, Orient)> = vec![];
+        if orientation == "vertex" {
+            queries.push((json!({"origin_vertex": 0, "destination_vertex": n - 1}), Orient::Vertex { o: 0, d: Some(n - 1) }));
+            queries.push((json!({"origin_vertex": 0}), Orient::Vertex { o: 0, d: None }));
+        } else {
+            for o in 0..m {
+                for d in 0..m {
+                    if o != d {
+                        queries.push((json!({"origin_edge": o, "destination_edge": d}), Orient::Edge { o, d: Some(d) }));
+                    }
+                }
+            }
+        }
+        let batch: Vec<Value> = queries.iter().map(|q| q.0.clone()).collect();
+        let res = match crate::engine::guarded(|| app.run(batch.clone(), None)) {
+            Ok(Ok(r)) => r,
+            Ok(Err(e)) => {
+                st.violation(&format!("app.{}", orientation), "run_returns_responses", net.size(), || e.to_string(), || json!({"net": net, "app_layer": true}));
+                continue;
+            }
+            Err(p) => {
+                st.violation(&format!("app.{}", orientation), "no_panic", net.size(), || p.clone(), || json!({"net": net, "app_layer": true}));
+                continue;
+            }
+        };
+        for (q, orient) in queries.iter() {
+            st.evaluations += 1;
+            st.transitions += 1;
+            st.traces += 1;
+            let r = match res.iter().find(|r| r["request"] == *q) {
+                Some(r) => r,
+                None => continue,
+            };
+            if r.get("error").is_some() {
+                continue;
+            }
+            let case = || json!({"net": net, "app_layer": true, "query": q});
+            let comp = format!("app.{}", orientation);
+            if let Some(path) = r["route"]["path"].as_array() {
+                let ids: Vec<usize> = path.iter().filter_map(|x| x.as_u64().map(|v| v as usize)).collect();
+                if !ids.is_empty() {
+                    let bad = route_structure(net, &ids, orient, false);
+                    if bad.is_empty() {
+                        st.pass("app_route_is_contiguous_walk");
+                    }
+                    for (c, d) in bad {
+                        st.violation(&comp, c, net.size(), || format!("route.path {:?}: {}", ids, d), case);
+                    }
+                }
+            }
+            if let Some(tree) = r["tree"].as_array() {
+                // json tree output: list of branches {terminal_vertex, edge_traversal{edge_id,..}}; the key vertex is the far end of the edge
+                let entries: Vec<TreeEntry> = tree
+                    .iter()
+                    .filter_map(|b| {
+                        let e = b["edge_traversal"]["edge_id"].as_u64()? as usize;
+                        let p = b["terminal_vertex"].as_u64()? as usize;
+                        if e >= net.m() {
+                            return None;
+                        }
+                        Some(TreeEntry { vertex: net.edges[e].1, parent: p, edge: e, cost: 0.0, state: vec![] })
+                    })
+                    .collect();
+                if entries.len() == tree.len() {
+                    let (root, oe) = match orient {
+                        Orient::Vertex { o, .. } => (*o, None),
+                        Orient::Edge { o, .. } => (net.edges[*o].1, Some(*o)),
+                    };
+                    let bad = tree_structure(net, &entries, root, false, oe);
+                    if bad.is_empty() {
+                        st.pass("app_tree_is_rooted_tree");
+                    }
+                    for (c, d) in bad {
+                        st.violation(&comp, c, net.size(), || d.clone(), case);
+                    }
+                } else {
+                    st.violation(&comp, "tree_edge_joins_parent_to_vertex", net.size(), || "tree output holds an edge that is not in the network".to_string(), case);
+                }
+            }
+        }
+        let _ = std::fs::remove_dir_all(&dir);
+    }
+}
+
 pub fn specs(tier: Tier) -> Vec<GenSpec> {
     match tier {
         Tier::Quick => vec![
@@ -223,9 +328,14 @@ pub fn specs(tier: Tier) -> Vec<GenSpec> {
 pub fn run(tier: Tier) -> i32 {
     let info = RunInfo::new("C01", tier);
     let specs = specs(tier);
+    let scratch = crate::world::app::Scratch::new("c01");
     let mut st = par_enumerate(&specs, |_spec, net, st| {
         let idx = net.hash_idx();
         for_net(net, tier, idx, st);
+        // every 50th network also goes through the whole application (files, configuration, plugins)
+        if idx % 50 == 0 {
+            app_layer(&scratch, net, st);
+        }
         if net.n == 3 && net.m() == 3 {
             st.sample(1, || json!({"net": net, "note": "every algorithm x direction x orientation x every ordered pair of distinct edges is run on it"}));
         }
